@@ -48,9 +48,14 @@ STRATA = {
     "enum_product_len3": (0, _nseq(3) * len(WRAPPERS) * len(BEHAVIOURS)),
     "enum_len4_roundrobin": (0, len(ALPHABET) ** 4),
     "canonical_runs": (len(WRAPPERS) * len(BEHAVIOURS) * 20, len(WRAPPERS) * len(BEHAVIOURS) * 80),
+    # a pure-Python Application (no child process) driven through the base class' own join()/timeout loop
+    "generic_app": (240, 4000),
+    # wrappers whose constructor raises (wrong program version, missing program): nothing may be left behind
+    "construct_failure": (60, 600),
 }
 REQUIRED_ORACLES = ["lifecycle_automaton", "rejected_call_no_side_effect", "resources_released", "clean_up_once", "results_match_tool",
-                    "cwd_unchanged_by_call", "launched_in_exec_dir", "command_line_matches_setters"]
+                    "cwd_unchanged_by_call", "launched_in_exec_dir", "command_line_matches_setters",
+                    "generic_join_contract", "constructor_failure_leaves_nothing"]
 ANCHORS = [
     "biotite.application.application:Application.start",
     "biotite.application.application:Application.cancel",
@@ -467,7 +472,7 @@ class Case:
         rng, app, n = self.rng, self.app, len(self.inputs or [])
         w = self.wrapper
         if w == "clustalo":
-            which = str(rng.choice(["guide_tree", "guide_tree_twice", "full_matrix", "distance_matrix"]))
+            which = str(rng.choice(["guide_tree", "guide_tree_twice", "full_matrix", "distance_matrix", "full_and_distance", "full_and_distance"]))
             if which.startswith("guide_tree"):
                 import biotite.sequence.phylo as phylo
                 for _ in range(2 if which.endswith("twice") else 1):
@@ -476,8 +481,20 @@ class Case:
                     np.fill_diagonal(d, 0)
                     app.set_guide_tree(phylo.upgma(d))
                 self.given_tree = True
-            elif which == "full_matrix":
-                app.full_matrix_calculation()
+            elif which in ("full_matrix", "full_and_distance"):
+                if which == "full_and_distance":
+                    # both options together (either order): the matrix read after the run is the one the program reported
+                    d = rng.uniform(0.1, 1.0, size=(n, n))
+                    d = (d + d.T) / 2
+                    np.fill_diagonal(d, 0)
+                    first = rng.random() < 0.5
+                    if first:
+                        app.set_distance_matrix(d)
+                    app.full_matrix_calculation()
+                    if not first:
+                        app.set_distance_matrix(d)
+                else:
+                    app.full_matrix_calculation()
                 self.full_matrix = True
             else:
                 d = rng.uniform(0.1, 1.0, size=(n, n))
@@ -727,7 +744,129 @@ CANONICAL = [("start", "join"), ("start", "cancel"), ("start", "join_timeout"), 
              ("setter", "start", "get_app_state", "get_stdout", "join")]
 
 
+def case_generic_app(rng, ctx):
+    """A pure-Python Application (as a web service wrapper would be): start, optional pause, join with or without timeout.
+    Judged: join succeeds iff the job is finished (a finished job is never timed out, however late join() is called),
+    a hanging job raises TimeoutError after about the timeout, a failing evaluate() propagates; in every case clean_up ran
+    exactly once and the final state is JOINED or CANCELLED."""
+    from biotite.application.application import Application, AppState
+    mode = str(rng.choice(["ok", "ok", "slow", "hang", "evalfail"]))
+    duration = {"ok": 0.0, "slow": 0.06, "hang": 1e9, "evalfail": 0.0}[mode]
+    pause = float(rng.choice([0.0, 0.0, 0.03, 0.12]))
+    timeout = [None, 0.02, 0.05, 0.5][int(rng.integers(4))]
+    if mode == "hang" and timeout is None:
+        timeout = 0.05
+    log = {"clean": 0, "evaluated": 0}
+
+    class PyApp(Application):
+        def run(self):
+            self.t0 = time.monotonic()
+
+        def is_finished(self):
+            return time.monotonic() - self.t0 >= duration
+
+        def wait_interval(self):
+            return 0.005
+
+        def evaluate(self):
+            log["evaluated"] += 1
+            if mode == "evalfail":
+                raise ValueError("unusable result")
+            self.result = 42
+
+        def clean_up(self):
+            log["clean"] += 1
+
+    ctx.log({"generic_app": mode, "pause": pause, "timeout": timeout})
+    ctx.op("generic_app_" + mode)
+    ctx.mark_nontrivial()
+    app = PyApp()
+    app.start()
+    if pause:
+        time.sleep(pause)
+    elapsed_before_join = time.monotonic() - app.t0
+    finished_before_join = elapsed_before_join >= duration
+    raised = None
+    t1 = time.monotonic()
+    try:
+        app.join() if timeout is None else app.join(timeout=timeout)
+    except BaseException as e:
+        raised = e
+    waited = time.monotonic() - t1
+    ctx.oracle("generic_join_contract")
+    ctx.exc(raised) if raised is not None else None
+    state = app.get_app_state() if app._state.name in ("JOINED", "CANCELLED") else app._state
+    info = dict(mode=mode, pause=pause, timeout=timeout, waited=round(waited, 3), raised=repr(raised), state=str(state))
+    if mode == "hang":
+        if not isinstance(raised, (app_mod.TimeoutError, TimeoutError)):
+            ctx.fail("generic_join_contract", "join(timeout=%r) on a job that never finishes raised %r" % (timeout, raised), **info)
+        if state != AppState.CANCELLED:
+            ctx.fail("generic_join_contract", "after the timeout the state is %s" % state, **info)
+    elif mode == "evalfail":
+        will_finish = finished_before_join or timeout is None or timeout > 0.2
+        if will_finish and not isinstance(raised, ValueError):
+            ctx.fail("generic_join_contract", "the exception of evaluate() did not reach the caller of join(): %r" % (raised,), **info)
+    else:
+        # finished already, or finishing well inside the timeout (slow: 0.06 s against 0.5 s; nothing tighter is judged)
+        must_succeed = finished_before_join or timeout is None or (timeout - (duration - elapsed_before_join)) > 0.25
+        if must_succeed:
+            if raised is not None:
+                ctx.fail("generic_join_contract", "join() of a job that %s raised %r" % ("had already finished" if finished_before_join else "finishes in time", raised), **info)
+            if state != AppState.JOINED or getattr(app, "result", None) != 42:
+                ctx.fail("generic_join_contract", "after join() the state is %s, result %r" % (state, getattr(app, "result", None)), **info)
+        else:
+            ctx.note("generic_join_outcome_depends_on_timing")
+    ctx.oracle("clean_up_once")
+    if raised is None or mode in ("hang", "evalfail") or isinstance(raised, (app_mod.TimeoutError, TimeoutError)):
+        if log["clean"] != 1:
+            ctx.fail("clean_up_once", "generic application: clean_up ran %d times (mode %s, raised %r)" % (log["clean"], mode, raised), **info)
+    ctx.state(("generic", mode, timeout is None, pause > 0, type(raised).__name__))
+
+
+def case_construct_failure(rng, ctx):
+    """A wrapper whose constructor raises must not leave temporary files behind (nobody holds an object to clean up)."""
+    import tempfile
+    which = str(rng.choice(["muscle3_on_muscle5", "muscle5_on_muscle3", "muscle3_missing", "muscle5_missing", "muscle3_garbage"]))
+    seqs, _ = make_inputs(rng, "protein")
+    bins = {"muscle3_on_muscle5": ("muscle3", os.path.join(FIX, "muscle5")), "muscle5_on_muscle3": ("muscle5", os.path.join(FIX, "muscle3")),
+            "muscle3_missing": ("muscle3", os.path.join(WORK, "no-such-dir", "muscle")), "muscle5_missing": ("muscle5", os.path.join(WORK, "no-such-dir", "muscle")),
+            "muscle3_garbage": ("muscle3", os.path.join(FIX, "echo"))}
+    wrapper, binpath = bins[which]
+    ctx.log({"construct_failure": which})
+    ctx.op("construct_failure_" + which)
+    ctx.mark_nontrivial()
+    os.environ["VF_FAKE_MODE"] = "ok"
+    AUDIT["events"] = []
+    AUDIT["on"] = True
+    raised = None
+    try:
+        CLASSES[wrapper](seqs, binpath)
+    except BaseException as e:
+        raised = e
+    finally:
+        AUDIT["on"] = False
+    ctx.oracle("constructor_failure_leaves_nothing")
+    if raised is None:
+        ctx.fail("constructor_failure_leaves_nothing", "%s accepted the program %s" % (CLASSES[wrapper].__name__, binpath))
+    ctx.exc(raised)
+    created = [e[1] for e in AUDIT["events"] if e[0] == "mkstemp"]
+    left = [p_ for p_ in created if os.path.exists(p_)]
+    for p_ in left:
+        try:
+            os.remove(p_)
+        except OSError:
+            pass
+    if left:
+        ctx.fail("constructor_failure_leaves_nothing", "%s(...) raised %s and left %d temporary file(s) behind: %s"
+                 % (CLASSES[wrapper].__name__, type(raised).__name__, len(left), [os.path.basename(x) for x in left]))
+    ctx.state(("construct_failure", which, type(raised).__name__))
+
+
 def run_case(stratum, rng, ctx):
+    if stratum == "generic_app":
+        return case_generic_app(rng, ctx)
+    if stratum == "construct_failure":
+        return case_construct_failure(rng, ctx)
     i = ctx.index
     if stratum == "enum_roundrobin":
         seq = decode_seq(i, 3)
